@@ -5,8 +5,8 @@ use educe::Educe;
 use core::cmp::Ordering;
 #[derive(Educe)]
 #[educe(PartialEq)]
-pub struct T { #[educe(PartialEq(method("m_eq")))] data: A<0>, #[educe(PartialEq(method = "m_eq"))] arg: A<1> }
-pub fn values() -> Vec<T> { vec![T { data: A(0), arg: A(0) }, T { data: A(0), arg: A(1) }, T { data: A(0), arg: A(7) }, T { data: A(1), arg: A(0) }, T { data: A(1), arg: A(1) }, T { data: A(1), arg: A(7) }, T { data: A(7), arg: A(0) }, T { data: A(7), arg: A(1) }, T { data: A(7), arg: A(7) }] }
-pub fn show(x: &T) -> String { #[allow(unused_variables)] match x { T { data: p0, arg: p1 } => format!("T({},{})", sv(p0), sv(p1)) } }
-pub fn o_eq(a: &T, b: &T) -> bool { match (a, b) { (T { data: a0, arg: a1 }, T { data: b0, arg: b1 }) => m_eq(a0, b0) && m_eq(a1, b1) } }
+pub enum T { A {  } }
+pub fn values() -> Vec<T> { vec![T::A {  }] }
+pub fn show(x: &T) -> String { #[allow(unused_variables)] match x { T::A {  } => format!("A()") } }
+pub fn o_eq(a: &T, b: &T) -> bool { match (a, b) { (T::A {  }, T::A {  }) => true } }
 pub fn run(out: &mut Out) { let vs = values(); for a in &vs { for b in &vs { let e = o_eq(a, b); out.check((a == b) == e, "eq_20", "eq", || format!("{} == {} expected {}", show(a), show(b), e)); out.check((a != b) == !e, "eq_20", "ne", || format!("{} != {} expected {}", show(a), show(b), !e)); } } }
